@@ -1,4 +1,5 @@
 import Ptn.C16.TreeLemmas
+import Ptn.C16.TtndoTrace
 /-! Property theorems for C16. Only property theorems and non-vacuity examples live here. -/
 namespace Ptn.C16
 
@@ -137,5 +138,31 @@ theorem padded_root_no_contribution (d : Nat) (hd : 0 < d) (x y : Nat → Int) :
 example : ((List.range 3).map (fun a => ((List.range 3).map
     (fun b => (if a = b then 1 else 0) * pad0 0 1 (fun _ => (5 : Int)) a * pad0 0 1 (fun _ => (7 : Int)) b)).sum)).sum
     = 35 := by decide
+
+/-! ## The contractions of the TTNDO (tree level, leg-label calculus of C04) -/
+
+open Ptn.C04 in
+/-- **`trace_ttndo` computes the closed graph of `<psi|psi>` through the root.**  For every state tree `t`
+(distinct identifiers) — `ketTree t` is `t` with the identifiers renamed to the ket identifiers, on which
+`from_ttns` builds the mirrored ket and bra branches below the root (`ttndo_structure`) — the loop of
+`trace_ttndo` over the ket nodes in linearisation order (with `ket_to_bra_id` as `id_trafo`, block dictionary
+keyed by ket identifiers) and `_contract_final_block` never raise and leave NO free leg; the bound pairs
+are, up to order: for every node `(ketPhys n, braPhys n)`, for every edge the two ket legs and the two bra
+legs, and the two root-bond legs of the ket and the bra copy of the state's root bound to the two legs of the
+root tensor (whose open leg of dimension 1 is indexed away).  With `padded_root_no_contribution` (the root
+tensor is the identity and only index 0 of the padded bonds is non-zero) the value is `<psi|psi>` (bra tensor
+= conj of the ket tensor). -/
+theorem trace_graph (t : Ptn.C04.Tree) (hnd : t.ids.Nodup) :
+    ∃ binds, Ttndo.traceTtndo (Ttndo.ttndoNetK (Ttndo.ketTree t)) = some ⟨[], binds⟩ ∧
+      binds.Perm (ssSpec (Ttndo.ketTree t) ++
+        [(Ttndo.rootKetLeg, Leg.gKet (Ttndo.ketTree t).id 0), (Ttndo.rootBraLeg, Leg.gBra (Ttndo.ketTree t).id 0)]) := by
+  obtain ⟨h1, h2⟩ := Ttndo.ketTree_wf t hnd
+  refine ⟨_, Ttndo.traceTtndo_eq (Ttndo.ketTree t) h1 h2, List.Perm.append_right _ ?_⟩
+  exact List.perm_iff_count.2 (fun x => count_blockBinds x _)
+
+example : Ttndo.traceTtndo (Ttndo.ttndoNetK (Ttndo.ketTree (.node 0 [.node 1 [], .node 2 []]))) =
+    some ⟨[], [Ptn.C04.physPair 3, Ptn.C04.ketEdge 1 3, Ptn.C04.physPair 5, Ptn.C04.ketEdge 1 5,
+               Ptn.C04.braEdge 1 3, Ptn.C04.braEdge 1 5, Ptn.C04.physPair 1,
+               (Ttndo.rootKetLeg, .gKet 1 0), (Ttndo.rootBraLeg, .gBra 1 0)]⟩ := by decide
 
 end Ptn.C16
